@@ -238,19 +238,81 @@ func boundArgs(p *ssa.Parameter) []ssa.Value {
 			idx = i
 		}
 	}
-	var out []ssa.Value
+	var out, scoped []ssa.Value
 	for _, cs := range helperSites[fn] {
 		if a := cs.Common().Args; idx >= 0 && idx < len(a) {
 			out = append(out, a[idx])
+			if boundScope != nil && boundScope[topOf(cs.Parent())] {
+				scoped = append(scoped, a[idx])
+			}
 		}
 	}
+	// a helper shared by several functions: while one of them is being analysed only its own call
+	// sites bind the helper's parameters (call-site sensitivity by scope)
+	if len(scoped) > 0 {
+		return scoped
+	}
 	return out
+}
+
+// boundScope: the top-level functions that belong to the function under analysis (itself and the
+// new helpers it reaches).  Set by Ctx.scope / Ctx.mustFn.
+var boundScope map[*ssa.Function]bool
+
+func topOf(f *ssa.Function) *ssa.Function {
+	for f != nil && f.Parent() != nil {
+		f = f.Parent()
+	}
+	return f
+}
+
+// scope makes fn the function under analysis for the binding of shared helpers' parameters.
+func (c *Ctx) scope(fn *ssa.Function) {
+	if fn == nil || len(newHelpers) == 0 {
+		boundScope = nil
+		return
+	}
+	boundScope = map[*ssa.Function]bool{}
+	for _, g := range fnsDeep(topOf(fn)) {
+		boundScope[g] = true
+	}
+	// closures of the root may call helpers as well
+	for _, cl := range closures(topOf(fn)) {
+		for _, g := range fnsDeep(cl) {
+			boundScope[topOf(g)] = true
+		}
+	}
 }
 
 // helperResults returns, for a call of a new helper, the values the helper returns at result
 // position idx (nil if the callee is not a new helper).
 func helperResults(call ssa.CallInstruction, idx int) []ssa.Value {
 	h := call.Common().StaticCallee()
+	if h == nil && !call.Common().IsInvoke() {
+		// a call of a function-typed parameter of a new helper: the results of the closures passed in
+		if p, ok := call.Common().Value.(*ssa.Parameter); ok {
+			var out []ssa.Value
+			for _, a := range boundArgs(p) {
+				var f *ssa.Function
+				switch x := a.(type) {
+				case *ssa.MakeClosure:
+					f, _ = x.Fn.(*ssa.Function)
+				case *ssa.Function:
+					f = x
+				}
+				if f == nil || f.Blocks == nil {
+					return nil
+				}
+				for _, b := range f.Blocks {
+					if r, ok := b.Instrs[len(b.Instrs)-1].(*ssa.Return); ok && idx < len(r.Results) {
+						out = append(out, unspill(r, r.Results[idx]))
+					}
+				}
+			}
+			return out
+		}
+		return nil
+	}
 	if h == nil || !newHelpers[h] || h.Blocks == nil {
 		return nil
 	}
